@@ -12,6 +12,46 @@ from rules import c06, c04
 ARC = "cglue::arc::"
 
 
+def _field(v, idx, name):
+    """Field of a summarised struct value: a literal, a symbolic struct, or a symbolic struct with some fields overwritten."""
+    from lib import sem
+    v = sem.strip(v)
+    if v[0] == "agg" and idx < len(v[4]):
+        return sem.strip(v[4][idx])
+    if v[0] == "upd":
+        for pp, val in v[2]:
+            if len(pp) == 1 and pp[0][0] == "f" and pp[0][1] == idx:
+                return sem.strip(val)
+        return ("fld", sem.strip(v[1]), idx, name)
+    return ("fld", v, idx, name)
+
+
+def sem_source_disarmed(fn, allf, adts):
+    """Semantic form of L5 for a conversion that takes a CArc by value: on every path that hands the source's pointer to the new handle,
+    the source value, when it is finally dropped, has `instance == None` (Drop for CArc is then a no-op) or is not dropped at all."""
+    from lib import sem
+    ev = sem.Evaluator(allf, adts, inline=lambda p: p.startswith(("cglue::", "<cglue::")) and "as std::ops::Drop>" not in p)
+    src = ("sym", "src")
+    for i, nm in enumerate(("instance", "clone_fn", "drop_fn")):
+        ev.hint(("fld", src, i, nm), "std::option::Option")
+    outs = ev.run(fn, [src])
+    if not outs or any(o.kind == "stuck" for o in outs):
+        return None
+    for o in outs:
+        if o.kind != "ret":
+            continue
+        shares = sem.contains(o.ret, lambda x: x[0] == "pay" and x[1] == ("fld", src, 0, "instance"))
+        if not shares:
+            continue
+        for e in o.effects:
+            if e[0] == "drop" and sem.contains(e[1], lambda x: x == src) and "CArc<" in (e[2] or ""):
+                inst = _field(e[1], 0, "instance")
+                inst = o.state.refined.get(inst, inst)
+                if sem.variant_of(inst) != "None":
+                    return False
+    return True
+
+
 def run(tier):
     ck = report.Check("C10", tier, level="other")
     f = facts.cfg_cglue()
@@ -126,6 +166,9 @@ def run(tier):
                 dl = forward.leafify(d)
                 took = dl[0] == "call" and dl[1].endswith("Option::<T>::take")
                 from_taken_value = mir.contains(d, lambda o: o[0] == "call" and o[1] == ARC + "CArc::<T>::take")
+                if not (took or from_taken_value) and fn["inputs"] and fn["inputs"][0].startswith(ARC + "CArc<"):
+                    allf = {x["path"]: x for x in f.fns("cglue-lib")}
+                    took = sem_source_disarmed(fn, allf, {a["path"]: a for a in f.adts("cglue-lib")}) is True
                 ck.ob("L5-transfer-disarms-source", "cglue/%s/%s" % (p, s["r"]["adt"].split("::")[-1]), took or from_taken_value,
                       "%s builds a handle whose drop_fn is %s: the source keeps its own drop function and both will release the reference" % (p, mir.fmt(d)[:160]),
                       sample={"fn": p, "drop_fn": mir.fmt(d)[:100]})
